@@ -116,7 +116,9 @@ def r2_directive_chain(ctx: Ctx) -> None:
                 k2 = kind  # DataNode(keyword.value, ...) inside a `keyword.value in (...)` arm keeps the directive's own kind
             ctx.check(ctor == "DataNode" and k2 == kind, f".{kind}:ast-kind", f"parsed into DataNode({k2!r}); must keep its own kind so the {WIDTHS[kind]}-byte generator runs")
             src = [s for s in body if isinstance(s, ast.Assign) and call_name(s.value) == "parse_expression_list_inner"]
-            ctx.check(len(src) == 1 and unparse(ret.value.args[1]) == unparse(src[0].targets[0]), f".{kind}:operands", "the parsed expression list is the node's data")
+            direct = len(ret.value.args) > 1 and isinstance(ret.value.args[1], ast.Call) and call_name(ret.value.args[1]) == "parse_expression_list_inner" and not src
+            ctx.check(direct or (len(src) == 1 and len(ret.value.args) > 1 and unparse(ret.value.args[1]) == unparse(src[0].targets[0])), f".{kind}:operands",
+                      "the parsed expression list is the node's data")
         else:
             want = {"ascii": "AsciiAstNode", "incbin": "IncludeBinaryAstNode"}[kind]
             ctx.check(ctor == want, f".{kind}:ast-kind", f"parsed into {ctor}")
@@ -188,9 +190,15 @@ def binary_symbols(ctx: Ctx) -> None:
     pc = pa.params()[1]
     labels = [c for c in calls_in(pa.node, suffix="add_label")]
     syms = [c for c in calls_in(pa.node, suffix="add_symbol")]
-    ok_l = len(labels) == 1 and [unparse(a) for a in labels[0].args] == ["self.symbol_base", pc]
+    from ..match import canon as _cn7
+
+    def cargs(c: ast.Call) -> list[str]:
+        return [_cn7(pa.node, a) for a in c.args]
+
+    ok_l = len(labels) == 1 and cargs(labels[0]) == ["self.symbol_base", pc]
     ctx.check(ok_l, "BinaryNode.pc_after:start-symbol", f"start symbol is defined at the address before the advance; found {[unparse(l) for l in labels]}")
-    ok_s = len(syms) == 1 and [unparse(a) for a in syms[0].args] == ["self.symbol_base + '__size'", "len(self.binary_content)"]
+    ok_s = len(syms) == 1 and len(syms[0].args) == 2 and cargs(syms[0])[0] in ("self.symbol_base + '__size'", "f'{self.symbol_base}__size'") \
+        and cargs(syms[0])[1] == "len(self.binary_content)"
     ctx.check(ok_s, "BinaryNode.pc_after:size-symbol", f"<base>__size is the file length; found {[unparse(s) for s in syms]}")
 
 
